@@ -1159,6 +1159,106 @@ def stage2(run):
             run.count('decl:instance:' + p.type + ('[]' if p.is_array else '') + (':null' if p.value is None else ''))
 
 
+# =========================================================================== typed model (extension stages)
+
+def val_json(v, typ):
+    """a typed CIM scalar for the typed model (Model/MofVal.lean): reals, datetimes and references travel as the
+    texts Python itself prints (the model's Codec carriers)"""
+    import pywbem
+    if v is None:
+        return None
+    if typ == 'string':
+        return {'s': common.cps(v)}
+    if typ == 'char16':
+        return {'c': common.cps(v)}
+    if typ == 'boolean':
+        return {'b': bool(v)}
+    if typ == 'datetime':
+        return {'d': common.cps(str(v))}
+    if typ == 'reference':
+        return {'ref': common.cps(v.to_wbem_uri())}
+    if typ in ('real32', 'real64'):
+        return {'r': common.cps(str(v))}
+    return {'i': str(int(v))}
+
+
+def value_json(v, typ):
+    return [val_json(x, typ) for x in v] if isinstance(v, list) else val_json(v, typ)
+
+
+def canon_val(j):
+    """model or real scalar JSON -> comparable form: float texts by the double they denote"""
+    import struct
+    if isinstance(j, list):
+        return [canon_val(x) for x in j]
+    if isinstance(j, dict) and 'r' in j:
+        try:
+            return {'rbits': struct.pack('>d', float(common.from_cps(j['r']))).hex()}
+        except Exception:  # noqa
+            return {'rbits': 'unparsable:' + common.from_cps(j['r'])}
+    return j
+
+
+def real_value_json(v, typ):
+    """the value the real compiler delivered, in the same JSON form"""
+    import struct
+    if isinstance(v, list):
+        return [real_value_json(x, typ) for x in v]
+    if v is None:
+        return None
+    if typ in ('real32', 'real64'):
+        return {'rbits': struct.pack('>d', float(v)).hex()}
+    return val_json(v, typ)
+
+
+def stage_typed_values(run):
+    """K for the typed value model: (a) valueToMof = real _value_tomof byte for byte, (b) parseValue on the text
+    of the real _value_tomof = what the real compiler makes of the same text (inside a qualifier declaration)"""
+    from pywbem import _cim_obj
+    rng = run.rng
+    n = 20000 if run.thorough else 3000
+    reqs, cases = [], []
+    for i in range(n):
+        c = fold_params(rng)
+        typ = rng.choice(QUAL_TYPES + ['string', 'string'])
+        is_array = rng.random() < 0.6
+        v = gen_value(rng, typ, is_array, allow_null_items=True) if rng.random() < 0.93 else None
+        cases.append((c, typ, is_array, v))
+        reqs.append({'op': 'valmof', 'ty': typ, 'v': value_json(v, typ), 'indent': c['indent'],
+                     'maxline': c['maxline'], 'pos': c['pos'], 'es': c['es'], 'avoid': c['avoid']})
+    ans = common.run_driver(PROP, reqs)
+    reads = []
+    for (c, typ, is_array, v), a in zip(cases, ans):
+        try:
+            m, p = _cim_obj._value_tomof(v, typ, c['indent'], c['maxline'], c['pos'], c['es'], c['avoid'])
+            real = {'ok': {'mof': common.cps(m), 'pos': p}}
+        except Exception as e:  # noqa
+            real = exc_json(e)
+        case = {'op': 'valmof', 'type': typ, 'v': repr(v)[:1500], **c}
+        run.case(case, nontrivial=('ok' in real and len(real['ok']['mof']) > 0))
+        run.count('valmof:' + typ + ('[]' if isinstance(v, list) else '') + ':' + real.get('exc', 'ok'))
+        if a != real:
+            run.disagree(case, a, real, 'valmof')
+        if 'ok' in real:
+            reads.append((typ, isinstance(v, list), m))
+    # (b) reader
+    ans = common.run_driver(PROP, [{'op': 'valread', 'ty': t, 'arr': arr, 'text': common.cps(m)}
+                                   for (t, arr, m) in reads])
+    for (t, arr, m), a in zip(reads, ans):
+        mof = 'Qualifier Q : %s%s = %s,\n Scope(any);\n' % (t, '[]' if arr else '', ('{ ' + m + ' }') if arr else m)
+        conn, e = compile_mof(mof)
+        case = {'op': 'valread', 'type': t, 'arr': arr, 'text': m}
+        if e is not None:
+            real = exc_json(e)
+        else:
+            real = {'v': real_value_json(conn.qualifiers[NS]['Q'].value, t)}
+        model = {'v': canon_val(a['v'])} if 'v' in a else a
+        run.case(case, nontrivial='v' in real)
+        run.count('valread:' + t + ('[]' if arr else '') + ':' + real.get('exc', 'ok'))
+        if model != real:
+            run.disagree(case, a, real, 'valread')
+
+
 # =========================================================================== stage 3: sessions
 
 SESSION_QNAMES = ['Qa', 'Qb', 'Qc']
@@ -1498,6 +1598,7 @@ def run(run):
     stage1_values(run)
     stage1_numbers(run)
     stage1_arrays(run)
+    stage_typed_values(run)
     stage2(run)
     stage3(run)
 
